@@ -41,4 +41,17 @@ def wTwoJoins : List Label :=
    .step 3 .ok, .step 3 .ok, .step 3 .ok, .step 3 .ok, .step 3 .ok, .step 4 .ok, .step 4 .ok, .step 4 .ok,
    .step 4 .ok, .step 4 .ok, .step 4 (.pick 0), .step 4 .ok, .step 4 .ok, .step 4 .ok, .step 4 .ok,
    .step 4 .ok, .step 4 .ok, .step 4 .ok, .step 4 .ok]
+/-- wait-gate timeout, replayable on the implementation (finding C05-1): the stalled client subscribe
+(no presence) adopts the generation of a fresh server-side subscribe (with presence) that has already
+committed, and its own commit overwrites the context; `close()` unsubscribes by the overwritten context and
+leaves the presence entry behind. -/
+def wPresenceSurvivesAdopt : List Label :=
+  [.spawn .csub 0 ⟨false, false⟩, .spawn .sunsub 0 ⟨false, false⟩, .spawn .sunsub 0 ⟨false, false⟩,
+   .spawn .ssub 0 ⟨true, false⟩, .step 0 .ok, .step 1 .ok, .step 1 .ok, .step 1 .tmo, .step 1 .ok,
+   .step 2 .ok, .step 2 .ok, .step 2 .ok, .step 2 .ok, .step 3 .ok, .step 3 .ok, .step 3 .ok, .step 3 .ok,
+   .step 3 .ok, .step 3 .ok, .step 3 .ok, .step 3 .ok, .step 0 .ok, .step 0 .ok, .step 0 .ok, .step 0 .ok,
+   .step 0 .ok, .step 0 .ok, .step 0 .ok, .step 0 .ok, .step 4 .ok, .step 4 .ok, .step 4 .ok, .step 4 .ok,
+   .step 4 .ok, .step 4 (.pick 0), .step 4 .ok, .step 4 .ok, .step 4 .ok, .step 4 .ok, .step 4 .ok,
+   .step 4 .ok, .step 4 .ok]
+
 end CentrifugeVerif.SubProto
